@@ -330,6 +330,15 @@ class C19(Prop):
                                [{'calls': rng.randrange(1, 40)},
                                 {'steps': rng.randrange(1, 40)},
                                 {'dt': rng.choice([0.01, 0.2, 0.6, 1.5])}])))
+            # a kill request (the one command outside the slot) for a worker
+            # inside the start sequence: its replacement waits for the
+            # periodic check like that of any other dead worker
+            if rng.random() < 0.3:
+                wk = rng.randrange(nw)
+                ops.insert(len(ops) - 1, {
+                    'op': 'req', 'cmd': 'kill', 'w': wk,
+                    'props': {'pid': {'w': wk, 'j': 0}}, 'waiting': False,
+                    'place': {'dt': rng.choice([0.1, 0.3, 0.6, 1.2, 2.0])}})
             ops.append({'op': 'quiet', 'checks': 1})
         return {'cfg': cfg, 'ops': ops}
 
